@@ -685,7 +685,34 @@ def r07_4(ctx):
                       f"_LRUDict constructed with max_size=`{ast.unparse(arg) if arg is not None else '?'}` under "
                       f"{conds}: the bound must be exactly cache_size, and 0 / None must not reach it",
                       "max_size=cache_size, cache_size not None and != 0")
-    # only subscripting may touch the cache slot
+    # only operations that cannot add an entry behind __setitem__'s back may touch the cache slot: subscripting,
+    # membership tests, len(), reading methods -- directly or through a local alias; update / setdefault / |= / handing
+    # the object to other code bypass the bounded store
+    READ_ONLY = {"get", "keys", "values", "items", "pop", "clear", "__contains__", "__getitem__", "__len__"}
+
+    def use_kind(fi, pm, n, depth=0):
+        par = pm.get(n)
+        if isinstance(par, ast.Subscript) and par.value is n:
+            return "ok", "subscript access"
+        if isinstance(par, ast.Compare) and n in par.comparators and \
+                all(isinstance(o, (ast.In, ast.NotIn)) for o in par.ops):
+            return "ok", "membership test"
+        if isinstance(par, ast.Call) and n in par.args and isinstance(par.func, ast.Name) and par.func.id == "len":
+            return "ok", "len()"
+        if isinstance(par, ast.Attribute) and par.value is n and par.attr in READ_ONLY:
+            return "ok", f".{par.attr}"
+        if isinstance(par, ast.Assign) and par.value is n and len(par.targets) == 1 and isinstance(par.targets[0], ast.Name) \
+                and depth == 0:
+            alias = par.targets[0].id
+            if len(astq.assignments_to(fi, alias)) != 1:
+                return "bad", f"alias `{alias}` is re-bound"
+            for m in own_nodes(fi.node):
+                if isinstance(m, ast.Name) and m.id == alias and isinstance(m.ctx, ast.Load):
+                    k, why = use_kind(fi, pm, m, 1)
+                    if k != "ok":
+                        return k, f"through alias `{alias}`: {why}"
+            return "ok", f"local alias `{alias}`, used by subscripting / membership only"
+        return "bad", f"`{ast.unparse(astq.stmt_of(fi, n))[:70]}`"
     n_uses = 0
     for fi in model.functions.values():
         if isinstance(fi.node, ast.Lambda):
@@ -694,17 +721,18 @@ def r07_4(ctx):
         for n in own_nodes(fi.node):
             if isinstance(n, ast.Attribute) and n.attr == cache_attr:
                 pm = pm or astq.parent_map(fi.node)
-                par = pm.get(n)
                 n_uses += 1
                 construct = f"{fi.key}::R07.4::cache-use::{astq.digest(astq.stmt_of(fi, n))}"
-                if isinstance(par, ast.Subscript) and par.value is n:
-                    rep.ok("R07.4", astq.loc(fi, n), construct, "subscript access")
-                elif isinstance(n.ctx, ast.Store) and fi is init:
+                if isinstance(n.ctx, ast.Store) and fi is init:
                     rep.ok("R07.4", astq.loc(fi, n), construct, "constructor binding")
+                    continue
+                kind, why = use_kind(fi, pm, n)
+                if kind == "ok":
+                    rep.ok("R07.4", astq.loc(fi, n), construct, why)
                 else:
                     rep.fail("R07.4", astq.loc(fi, n), construct,
-                             f"the cache is used other than by subscripting (`{ast.unparse(astq.stmt_of(fi, n))[:70]}`): "
-                             f"update/setdefault/|= bypass the bounded __setitem__")
+                             f"the cache is used other than by subscripting / membership tests ({why}): "
+                             f"update/setdefault/|= or an escaping reference bypass the bounded __setitem__")
     ctx.floor("R07.4", 8)
 
 
